@@ -320,7 +320,15 @@ func (p *TransportParameters) readNumericTransportParameter(b []byte, paramID tr
 			return fmt.Errorf("initial_max_streams_uni too large: %d (maximum %d)", p.MaxUniStreamNum, protocol.MaxStreamCount)
 		}
 	case maxIdleTimeoutParameterID:
-		p.MaxIdleTimeout = max(protocol.MinRemoteIdleTimeout, time.Duration(val)*time.Millisecond)
+		// A value of 0 means that the peer does not limit the idle period, exactly like omitting
+		// the parameter (RFC 9000, section 18.2). Clamp huge values before the multiplication
+		// wraps around.
+		if val == 0 {
+			p.MaxIdleTimeout = 0
+		} else {
+			val = min(val, uint64(math.MaxInt64/int64(time.Millisecond)))
+			p.MaxIdleTimeout = max(protocol.MinRemoteIdleTimeout, time.Duration(val)*time.Millisecond)
+		}
 	case maxUDPPayloadSizeParameterID:
 		if val < 1200 {
 			return fmt.Errorf("invalid value for max_udp_payload_size: %d (minimum 1200)", val)
@@ -344,9 +352,11 @@ func (p *TransportParameters) readNumericTransportParameter(b []byte, paramID tr
 	case maxDatagramFrameSizeParameterID:
 		p.MaxDatagramFrameSize = protocol.ByteCount(val)
 	case minAckDelayParameterID:
-		mad := time.Duration(val) * time.Microsecond
-		if mad < 0 {
-			mad = math.MaxInt64
+		// compare before multiplying: the product wraps around silently, also to small positive
+		// values that would pass the comparison with max_ack_delay
+		mad := time.Duration(math.MaxInt64)
+		if val <= uint64(math.MaxInt64/int64(time.Microsecond)) {
+			mad = time.Duration(val) * time.Microsecond
 		}
 		p.MinAckDelay = &mad
 	default:
